@@ -544,22 +544,13 @@ def tui_facts():
 # sha256[:16] of the source template (ast.unparse of the assigned expression) of each statement,
 # as read at the commit the model in coq/model/Pending.v was written against.
 EXPECTED_SQL = {
-    "_SELECT_NTOTAL": "c08c87613fe6afd2",
-    "_INSERT_PEND_STEP": "8adf1f55fc426246",
-    "_INSERT_PEND_FILE_BLOCK": "4b1feef1e37a8a3d",
-    "_INSERT_PEND_DEAD_FILE": "040645d0c812724d",
     "_INSERT_PEND_UNSAFE_ANC": "924754a16e4f843e",
-    "_INSERT_PEND_RESOURCE": "c3a820286e3ee8d2",
-    "_INSERT_PEND_STEP_BLOCK": "b153581e5f2def5d",
     "_INSERT_PEND_SEED_FILE": "047d8f0e17155348",
     "_INSERT_PEND_SEED_RESOURCE": "86a01a5c837ac8fe",
-    "_INSERT_PEND_BLOCKER": "fcc1d37c39b99fa5",
     "_INSERT_PEND_BLOCKER_RUNNABLE": "6937a834539ac4f7",
     "_INSERT_PEND_ATTRIBUTED": "1817131a930acfb9",
     "_CREATE_PEND_TABLES": "f612d854cf474357",
     "_analyze_pending": "6802558c2280963c",
-    "_bucket": "c60e960c1a5cb92c",
-    "_cyclic_bucket": "e3a9b9eb33263876",
 }
 
 EXEC_ORDER = ["_INSERT_PEND_STEP", "_INSERT_PEND_FILE_BLOCK", "_INSERT_PEND_DEAD_FILE",
@@ -613,8 +604,8 @@ def generate():
     produce a concrete witness) and then raises.
     """
     rc, ss, fs, need, kinds, static_states = enum_facts()
-    unav, unav_text = unavailable_input()
-    defer_arm = deferred_dynamic_arm()
+    from . import gen_pending_sql
+    sql_lines = gen_pending_sql.generate_lines(kinds)
     ftree = parse_module(f"{CORE}/finalize.py")
     rc_funcs, conds = [], {}
     for fname in ["_report_pending_steps", "_report_missing_targets", "_report_glob_violations",
@@ -630,7 +621,7 @@ def generate():
     lines = [
         "(* GENERATED by translator/gen_pending.py from /repo -- do not edit *)",
         "From Coq Require Import List NArith Bool.",
-        "From SV Require Import lib.Bytes.",
+        "From SV Require Import lib.Bytes lib.SqlExpr model.PendingTypes.",
         "Import ListNotations.",
         "Open Scope N_scope.",
         "Definition memN (x : N) (l : list N) : bool := existsb (N.eqb x) l.",
@@ -652,13 +643,8 @@ def generate():
     for k in ["ROOT_FILE", "ROOT_RESOURCE", "ROOT_FAILED", "ROOT_DEFERRED", "ROOT_OTHER",
               "ROOT_RUNNABLE", "BLOCK_STEP"]:
         lines.append(f"Definition K_{k} : N := {kinds[k]}.")
+    lines += sql_lines
     lines += [
-        f"(* step.UNAVAILABLE_INPUT_WHERE: {unav_text} *)",
-        "Definition unavailable_input (state : N) (detached dynamic : bool) : bool :=",
-        f"  {unav}.",
-        "(* second disjunct of _INSERT_PEND_FILE_BLOCK *)",
-        "Definition deferred_dynamic_block (state : N) (deferred dynamic : bool) : bool :=",
-        f"  {defer_arm}.",
         "(* finalize.py, statement-level translation of everything that touches the return code *)",
     ]
     lines += rc_funcs
